@@ -155,9 +155,10 @@ def _idx(sel, n):
 
 
 # ---- groupby --------------------------------------------------------------------------
-def h_groupby_close(n: int, k0: int, k1: int, k2: int, steps: int, gsteps: int, usekey: bool):
+def h_groupby_close(n: int, k0: int, k1: int, k2: int, steps: int, gsteps: int, usekey: bool, x: int, y: int):
     """
     pre: 0 <= n <= P("N", 3) and 0 <= steps <= 3 and 0 <= gsteps <= 2
+    pre: (0 <= x <= 2 * P("N", 3) + 2 and 0 <= y <= 2) if P("faults", False) else (x == 0 and y == 0)
     post: _[0]
     post: not _[1]
     """
@@ -166,7 +167,8 @@ def h_groupby_close(n: int, k0: int, k1: int, k2: int, steps: int, gsteps: int, 
     items = []
     for j in range(n):
         items.append(Item(keys[j], "0.%d" % j))
-    Wa = World("a")
+    fault = make_fault(y) if x else None
+    Wa = World("a", fault_at=x, fault=fault)
     D = Driver(Wa, sync_only=True)
     src = Wa.source(items, P("fl", "agen"))
     st = Wa.srcs[0]
@@ -178,13 +180,19 @@ def h_groupby_close(n: int, k0: int, k1: int, k2: int, steps: int, gsteps: int, 
             g = A.groupby(src)
         grp = None
         adv = 0
+        end = None
         for i in range(steps):
             got, end = D.take(g, 1)
             if got:
                 grp = got[0][1]
                 adv += 1
-        if grp is not None:
-            D.take(grp, gsteps)
+            if end is not None and end != "stop":
+                break
+        if grp is not None and (end is None or end == "stop"):
+            _g, end = D.take(grp, gsteps)
+        if end is fault and fault is not None and not st.is_released():
+            # the groupby raised: like every other tool it must have released its source
+            ok = fail("groupby:source-not-released-after-raise") and ok
         r = D.call(g.aclose())
         if r[0] == "exc":
             ok = fail("groupby:aclose-raised-%s(%s)" % (type(r[1]).__name__, "advanced" if steps else "unadvanced")) and ok
@@ -271,7 +279,7 @@ def _grid_release():
 GRID = {
     "h_release": _grid_release,
     "h_tee_close": lambda: [(n, a, b, 1, o, 0, 0, v) for n in range(3) for a in range(3) for b in range(3) for o in (0, 1) for v in (False, True)],
-    "h_groupby_close": lambda: [(n, 1, 1, 2, s, g, u) for n in range(4) for s in range(4) for g in range(2) for u in (False, True)],
+    "h_groupby_close": lambda: [(n, 1, 1, 2, s, g, u, x, 0) for n in range(4) for s in range(4) for g in range(2) for u in (False, True) for x in ((0, 1, 2, 3, 5) if P("faults", False) else (0,))],
     "h_agg_proto": lambda: [(n, b, w) for n in (1, 2, 3) for b in range(n) for w in range(5)],
 }
 
@@ -329,6 +337,7 @@ def jobs(tier):
         add("h_tee_close", C=2, N=2, fl=fl)
         add("h_tee_close", C=3, N=(1 if q else 2), fl=fl)
         add("h_groupby_close", N=3, fl=fl)
+        add("h_groupby_close", N=2, fl=fl, faults=True, ffl=("adef" if fl == "acls" else "def"))
         add("h_agg_proto", fl=fl)
     return J
 
